@@ -26,6 +26,10 @@ CLAIMED = {
          "Exploration: Curve2/Curve3 resample by count / spacing / max spacing, simplify, ramer_douglas_peucker and fill_gaps on generated open and closed curves with total length on both sides of 1.0 and uneven density; the expected sample positions are pushed through the harness's own model of tolerance de-duplication and closure and compared vertex by vertex; requests must succeed whenever they yield at least two representable samples.",
          "Requests whose sample spacing is below 4x the curve tolerance, or whose de-duplication outcome depends on rounding, are not judged on count/end points (counted as skipped). Max-spacing is judged on uniformity, span and spacing <= max, not on a minimal count.",
          "3 / C05"),
+ "C06": ("runtime monitor: definitional per-edge scan vs the accelerated search, plus independent soundness/completeness oracles computed in the harness",
+         "Exploration: Curve2::ray_intersections / try_create_spanning_ray / max_intersection / farthest_point_direction_distance / intersection with a surface point's normal line on polylines of 5..5000 edges in layouts that shape the bounding-volume tree differently, with rays at every multiple of 15 degrees, exact axis directions incl. -0.0, origins inside/outside/behind/on a vertex/on an edge, lines through two vertices and lines parallel to an edge. The accelerated list must equal the sorted, 1e-8-de-duplicated per-edge list; independently every robust sign-change edge must be represented, every reported crossing must lie on its edge, and a vertex that is exactly the ray origin must be reported at t=0.",
+         "Definitional oracle uses the public per-edge primitive (declared exception in DESIGN 2.4); the independent oracles skip edges nearer to the line than 1e-9*(extent+offset), |det| < 1e-10 and crossing angles with sin < 1e-6 (counted). Thorough tier adds Miri and AddressSanitizer passes (custom SIMD slab test over parry's QBVH).",
+         "3 / C06"),
 }
 
 def main():
